@@ -56,6 +56,9 @@ pub enum Error {
 
     /// The start position is greater than the end position.
     StartPositionGreaterThanEndPosition,
+
+    /// The end position is greater than the size of the chromosome.
+    EndPositionGreaterThanChromosomeSize,
 }
 
 impl std::fmt::Display for Error {
@@ -65,6 +68,9 @@ impl std::fmt::Display for Error {
             Error::Parse(err) => write!(f, "parse error: {err}"),
             Error::StartPositionGreaterThanEndPosition => {
                 write!(f, "start position greater than end position")
+            }
+            Error::EndPositionGreaterThanChromosomeSize => {
+                write!(f, "end position greater than chromosome size")
             }
         }
     }
@@ -280,12 +286,19 @@ impl Sequence {
                 self.alignment_start() as Number,
                 self.alignment_end() as Number,
             ),
-            Strand::Negative => (
+            Strand::Negative => {
                 // NOTE: coordinates on the negative strand are stored as the
-                // reverse complement of the real sequence.
-                self.chromosome_size - self.alignment_start() as Number,
-                self.chromosome_size - self.alignment_end() as Number,
-            ),
+                // reverse complement of the real sequence. Since the start is
+                // never greater than the end, checking the end suffices.
+                if self.alignment_end() > self.chromosome_size {
+                    return Err(Error::EndPositionGreaterThanChromosomeSize);
+                }
+
+                (
+                    self.chromosome_size - self.alignment_start() as Number,
+                    self.chromosome_size - self.alignment_end() as Number,
+                )
+            }
         };
 
         let start = Coordinate::new(self.chromosome_name(), self.strand(), start_pos);
